@@ -137,6 +137,7 @@ import hashlib as _hl
 import hmac as _hm
 import base64 as _b64
 import binascii as _ba
+import collections as _co
 import functools as _ft
 import itertools as _it
 import re as _re
@@ -192,6 +193,7 @@ class Evaluator:
                           "b64encode": _b64.b64encode, "b64decode": _b64.b64decode,
                           "binascii": Namespace(a2b_base64=_ba.a2b_base64, b2a_base64=_ba.b2a_base64, hexlify=_ba.hexlify, unhexlify=_ba.unhexlify),
                           "base64": Namespace(b64encode=_b64.b64encode, b64decode=_b64.b64decode),
+                          "defaultdict": _co.defaultdict, "OrderedDict": _co.OrderedDict, "collections": Namespace(defaultdict=_co.defaultdict, OrderedDict=_co.OrderedDict),
                           "functools": Namespace(reduce=_ft.reduce, partial=_ft.partial), "reduce": _ft.reduce, "partial": _ft.partial,
                           "re": Namespace(compile=_re.compile, match=_re.match, fullmatch=_re.fullmatch, search=_re.search, findall=_re.findall, sub=_re.sub, split=_re.split,
                                           IGNORECASE=_re.IGNORECASE, I=_re.I)}
@@ -940,6 +942,12 @@ class Evaluator:
                     ok, r = self._obj_method(args[0], "__len__" if nm == "len" else "__bool__", [])
                     if ok:
                         return r
+                if nm in ("str", "repr") and len(args) == 1 and isinstance(args[0], Obj) and args[0].mod != "builtins":
+                    for dunder in (("__str__", "__repr__") if nm == "str" else ("__repr__",)):
+                        ok, r = self._obj_method(args[0], dunder, [])
+                        if ok:
+                            return r
+                    raise Undecided("%s() of an object without __str__ / __repr__" % nm)
                 if nm == "sum" and args and isinstance(args[0], (list, tuple)) and (any(isinstance(x, Obj) for x in args[0]) or any(isinstance(x, Obj) for x in args[1:])):
                     acc = args[1] if len(args) > 1 else 0
                     for x in args[0]:
